@@ -32,7 +32,7 @@ Definition nm_step (dim : nat) (beta gamma delta : K) (s : seq row) : seq row :=
   let xr := vmap2 (fun ci wi => kadd ci (kmul k1 (ksub ci wi))) c worst.1 in
   let fr := func xr in
   let s' :=
-    if kltb best.2 fr && kltb fr second.2 then replace_last s (xr, fr)
+    if kleb best.2 fr && kltb fr second.2 then replace_last s (xr, fr)
     else if kltb fr best.2 then
       let xe := vmap2 (fun ci ri => kadd ci (kmul beta (ksub ri ci))) c xr in
       let fe := func xe in
